@@ -288,6 +288,46 @@ class SymPath:
         return self._name.rsplit("/", 1)[-1]
 
     @property
+    def suffix(self):
+        n = self.name
+        i = n.rfind(".")
+        return n[i:] if 0 < i < len(n) - 1 else ""
+
+    @property
+    def suffixes(self):
+        return [self.suffix] if self.suffix else []
+
+    @property
+    def stem(self):
+        n = self.name
+        return n[: len(n) - len(self.suffix)] if self.suffix else n
+
+    def with_suffix(self, suffix):
+        base = self._name[: len(self._name) - len(self.suffix)] if self.suffix else self._name
+        return SymPath(base + suffix)
+
+    def with_name(self, name):
+        return SymPath((self._name.rsplit("/", 1)[0] + "/" if "/" in self._name else "") + name)
+
+    def resolve(self, strict=False):
+        return self
+
+    def absolute(self):
+        return self
+
+    def expanduser(self):
+        return self
+
+    def is_dir(self):
+        return False
+
+    def touch(self, exist_ok=True):
+        d = fs().file(self._name)
+        if d.exists and not exist_ok:
+            raise FileExistsError(self._name)
+        d.exists = True
+
+    @property
     def parent(self):
         return SymPath(self._name.rsplit("/", 1)[0] if "/" in self._name else ".")
 
